@@ -426,7 +426,14 @@ impl EvalResult {
     }
 
     pub fn is_truthy(&self) -> Option<bool> {
-        self.as_value().and_then(SparqlValue::is_truthy)
+        match (self.as_value(), self) {
+            (Some(value), _) => value.is_truthy(),
+            // the effective boolean value of an ill-formed numeric literal is false
+            (None, EvalResult::Term(t)) if SparqlValue::is_ill_formed_number(t.inner()) => {
+                Some(false)
+            }
+            _ => None,
+        }
     }
 
     pub fn sparql_eq(&self, other: &Self) -> Option<bool> {
